@@ -237,8 +237,8 @@ class C08(DiffProperty):
     harness_src = "c08_parse.c"
     libs = ["mptcore"]
     harness_env = dict(vcheck.ASAN_LEAK_ENV, ASAN_OPTIONS=vcheck.ASAN_LEAK_ENV["ASAN_OPTIONS"] + ":symbolize=0")
-    harness_args = ("20",)
-    quick_n = 4200
+    harness_args = ("4",)
+    quick_n = 9000
     thorough_n = 120000
 
     def split(self, case):
